@@ -70,6 +70,7 @@ def _record(ob: Obligation, verdict, model, stats, want_smt2=False) -> Dict:
         "hyps": len(ob.hyps),
         "instances": stats.get("instances", 0),
         "backend": stats.get("backend", ""),
+        "rlimit_used": stats.get("rlimit_used"),
         "meta": {k: str(v) for k, v in (ob.meta or {}).items()},
     }
     if verdict == "sat":
